@@ -31,6 +31,8 @@ struct Ctx {
     seen_inst: BTreeSet<String>,
     nobody_filter: Vec<String>,
     trait_fns: BTreeMap<String, Option<rustc_public::ty::FnDef>>,
+    /// #[thread_local] statics reached through Rvalue::ThreadLocalRef, keyed by the JSON of the item as it appears in the body
+    tls: BTreeMap<String, Value>,
 }
 
 fn ty_id(t: Ty) -> usize {
@@ -267,6 +269,16 @@ impl Ctx {
                             if let Ok(t) = rv.ty(body.locals()) {
                                 self.note_ty(t);
                             }
+                            if let Rvalue::ThreadLocalRef(item) = rv {
+                                let key = serde_json::to_string(item).unwrap_or_default();
+                                if !self.tls.contains_key(&key) {
+                                    if let Ok(sd) = StaticDef::try_from(*item) {
+                                        let init = sd.eval_initializer().ok().map(|a| serde_json::to_value(&a).unwrap());
+                                        let tid = self.note_ty(sd.ty());
+                                        self.tls.insert(key, json!({"name": sd.name(), "ty": tid, "init": init}));
+                                    }
+                                }
+                            }
                             if let Rvalue::Cast(_, op, t) = rv {
                                 self.note_ty(*t);
                                 if let Ok(t0) = op.ty(body.locals()) {
@@ -383,6 +395,7 @@ fn dump() -> ControlFlow<()> {
         seen_inst: BTreeSet::new(),
         nobody_filter: nobody,
         trait_fns: BTreeMap::new(),
+        tls: BTreeMap::new(),
     };
     let mut root_names = vec![];
     let mut all_items = vec![];
@@ -446,6 +459,9 @@ fn dump() -> ControlFlow<()> {
     for (_, i) in cx.insts.iter() {
         scan(i, &mut todo);
     }
+    for (_, t) in cx.tls.iter() {
+        scan(t, &mut todo);
+    }
     let mut extra_insts: Vec<Instance> = vec![];
     while let Some(id) = todo.pop() {
         if allocs.contains_key(&id) {
@@ -508,7 +524,7 @@ fn dump() -> ControlFlow<()> {
         allocs.insert(id, v);
     }
     let out = json!({"roots": root_names, "instances": cx.insts, "types": cx.types, "allocs": allocs,
-        "clone_impls": clone_impls, "n_local_items": all_items.len()});
+        "clone_impls": clone_impls, "n_local_items": all_items.len(), "tls_statics": cx.tls});
     let path = std::env::var("SMIR_OUT").unwrap_or("/var/tmp/smir.json".into());
     std::fs::write(&path, serde_json::to_string(&out).unwrap()).unwrap();
     if std::env::var("SMIR_ITEMS").is_ok() {
